@@ -46,8 +46,75 @@ def _col_index(kind):
     return {"1:": slice(1, None), "::-1": slice(None, None, -1), ":-1": slice(None, -1), "0:1": slice(0, 1)}[kind]
 
 
+def check_matrix_vector(v):
+    """A program of CharArray.tla with Matrix = TRUE on 2-D encoded arrays (a flat encoded array reshaped to rows x columns)."""
+    import bionumpy as bnp
+    prog, obs, pool_exp = v["prog"], v["obs"], v["pool"]
+    bad, n = [], 0
+    for ename, enc, letters in _encodings()[:3]:
+        txt = lambda row: "".join(letters[c] for c in row)
+        rows0 = pool_exp[0]
+        w = len(rows0[0])
+        flat = bnp.as_encoded_array("".join(txt(r) for r in rows0), enc) if enc is not None else bnp.as_encoded_array("".join(txt(r) for r in rows0))
+        pool = [flat.reshape(len(rows0), w)]
+        last, failed = ("ok", None), None
+        for step, op in enumerate(prog[1:]):
+            name = op["op"]
+            t = pool[op["t"] - 1]
+
+            def do():
+                if name == "rows":
+                    pool.append(t[_row_index(op["sel"], len(t))])
+                elif name == "cols":
+                    ncol = t.shape[1]
+                    idx = {"cfancy": [-1, 0], "cmask": np.array([j % 2 == 0 for j in range(ncol)], dtype=bool)}.get(op["sel"])
+                    pool.append(t[:, idx if idx is not None else _col_index(op["sel"])])
+                elif name == "copy":
+                    pool.append(t.copy())
+                elif name == "row":
+                    return t[0 if op["r"] == 1 else -1].to_string()
+                elif name == "col":
+                    return t[:, 0 if op["c"] == 1 else -1].to_string()
+                elif name == "eq":
+                    return [[bool(x) for x in row] for row in np.asarray(t == letters[op["x"]]).tolist()]
+                elif name == "ravel":
+                    return t.ravel().to_string()
+                else:
+                    raise ValueError(name)
+                return None
+            last = outcome(do)
+            n += 1
+            if last[0] == "err":
+                failed = step
+                break
+        tags = {"encoding": ename, "op": prog[-1]["op"], "ops": "-".join(p["op"] for p in prog[1:]), "matrix": True}
+        case = {"prog": prog, "start": [txt(r) for r in rows0], "encoding": ename}
+        if failed is not None:
+            if failed == len(prog) - 2 and not (prog[-1]["op"] in ("row", "col") and not pool_exp[prog[-1]["t"] - 1]):
+                bad.append({"what": "operation %s on a character matrix raised" % prog[-1]["op"], "tags": dict(tags, kind="raises"), "vector": v, "case": case,
+                            "expected": "a value", "observed": last[1]})
+            continue
+        if obs["kind"] == "str" and last[1] != txt(obs["val"]):
+            bad.append({"what": "%s of a character matrix returns something else than the list of strings gives" % prog[-1]["op"], "tags": dict(tags, kind="value"),
+                        "vector": v, "case": case, "expected": txt(obs["val"]), "observed": last[1]})
+        elif obs["kind"] == "bools" and last[1] != obs["val"]:
+            bad.append({"what": "comparison of a character matrix with a character differs", "tags": dict(tags, kind="value"), "vector": v, "case": case,
+                        "expected": obs["val"], "observed": last[1]})
+        for k, (arr, exp) in enumerate(zip(pool, pool_exp)):
+            o = outcome(lambda: [row.to_string() for row in arr])
+            n += 1
+            want = [txt(r) for r in exp]
+            if o != ("ok", want):
+                bad.append({"what": "matrix %d of the pool does not hold the model's rows after %s" % (k + 1, prog[-1]["op"]),
+                            "tags": dict(tags, kind="pool", which=("result" if k == len(pool) - 1 else "earlier-array")), "vector": v, "case": case,
+                            "expected": want, "observed": o})
+    return {"n": n, "nt": [json.dumps(["matrix", prog])], "bad": bad}
+
+
 def check_vector(v):
     import bionumpy as bnp
+    if v.get("_matrix"):
+        return check_matrix_vector(v)
     prog, obs, pool_exp = v["prog"], v["obs"], v["pool"]
     bad, n, nt = [], 0, []
     encs = _encodings()
@@ -174,7 +241,7 @@ def _with_start(vectors, starts):
 
 def run(ctx):
     quick = ctx.tier == "quick"
-    base = {"Symbols": [0, 1], "MaxPool": 3}
+    base = {"Symbols": [0, 1], "MaxPool": 3, "Matrix": False}
     plans = [dict(base, MaxRows=2, MaxLen=2, MaxDepth=3, Ops=ALL_OPS, StartArrays="<- AllArrays"),
              dict(base, MaxRows=3, MaxLen=2, MaxDepth=4, Ops=["rows", "cols", "copy", "setrow", "setmask"], StartArrays="<- DeepStart")]
     if not quick:
@@ -186,6 +253,13 @@ def run(ctx):
         res = ctx.tlc("MC_C07", tag="MC_C07_%d" % i, spec="Spec", constants=c, invariants=["TypeOK", "Emit"], properties=["AssignLocal"], coverage=True)
         ctx.require_actions(res, "MC_C07", ["RowSelect", "ColSelect", "Copy", "AssignRow", "AssignMask"])
         vectors += _with_start(res.vectors, None)
+    # rectangular arrays as 2-D character matrices; columns also picked by an index list or a mask
+    resm = ctx.tlc("MC_C07", tag="MC_C07_matrix", spec="Spec", constants=dict(base, Matrix=True, MaxRows=3, MaxLen=3, MaxDepth=3 if quick else 4,
+                                                                               Ops=["rows", "cols", "copy", "row", "col", "eq", "ravel"], StartArrays="<- RectStart"),
+                   invariants=["TypeOK", "Emit"])
+    for v in resm.vectors:
+        v["_matrix"] = True
+    vectors += resm.vectors
     ctx.sample(vectors[100])
     ctx.absorb(core.pmap(check_vector, vectors, chunk=50))
     ctx.exhaustive = True
@@ -198,7 +272,7 @@ def run(ctx):
 
 def replay(d):
     print("replay of C07 case:", d.get("what"), d.get("tags"), d.get("case"))
-    v = dict(d["vector"], _all=True)
+    v = dict(d["vector"], _all=True, _matrix=bool(d["tags"].get("matrix")))
     v["_start"] = v["pool"][0]
     r = check_vector(v)
     same = [b for b in r["bad"] if b["tags"]["kind"] == d["tags"]["kind"]]
